@@ -140,7 +140,17 @@ def gen_partial():
     stores = [n for n in ast.walk(wait) if isinstance(n, ast.Name) and n.id == "polynomial_steps" and isinstance(n.ctx, ast.Store)]
     need(len(stores) == 2, "deferred.wait: polynomial_steps is assigned elsewhere")
     bd = find_class(tree, "BaseDeferred")
-    dump_eq(find_def(bd, "wait"), "def wait(self):\n    with Awaiting(self):\n        return self._wait()", "BaseDeferred.wait")
+    dump_eq(find_def(bd, "wait"),
+            "def wait(self):\n"
+            "    if try_compute.depth > 0 and id(self) in try_compute.not_ready_yet:\n"
+            "        raise NotReadyError()\n"
+            "    with Awaiting(self):\n"
+            "        try:\n"
+            "            return self._wait()\n"
+            "        except NotReadyError:\n"
+            "            if try_compute.depth > 0:\n"
+            "                try_compute.not_ready_yet[id(self)] = self\n"
+            "            raise", "BaseDeferred.wait (with the not_ready_yet memo)")
     aw = find_class(tree, "Awaiting")
     dump_eq(find_def(aw, "__enter__"), "def __enter__(self):\n    if self.deferred.is_awaiting:\n        raise DeferredCycle()\n    self.deferred.is_awaiting = True\n"
             "    Awaiting.awaiting_stack.append(self.deferred)\n    return self", "Awaiting.__enter__")
@@ -150,6 +160,12 @@ def gen_partial():
     dump_eq(find_def(df, "_wait"), "def _wait(self):\n    if self.settled:\n        return self.value\n    else:\n        self.value = self.fn()\n"
             "        self.settled = True\n        return self.value", "Deferred._wait")
     tc = find_class(tree, "TryCompute")
+    dump_eq(find_def(tc, "__enter__"), "def __enter__(self):\n    if self.depth == 0:\n        self.not_ready_yet = {}\n    self.depth += 1\n    return self",
+            "TryCompute.__enter__ (memo reset at the outermost speculation)")
+    memo_users = sorted({ast.unparse(n)[:60] for n in ast.walk(tree) if isinstance(n, ast.Attribute) and n.attr == "not_ready_yet"})
+    need(memo_users == ["self.not_ready_yet", "try_compute.not_ready_yet"], "deferred.py: not_ready_yet is used somewhere else: " + repr(memo_users))
+    n_memo = sum(1 for n in ast.walk(tree) if isinstance(n, ast.Attribute) and n.attr == "not_ready_yet")
+    need(n_memo == 3, f"deferred.py: not_ready_yet is referenced {n_memo} times (expected: reset, membership test, store)")
     need(ast.unparse(find_def(tc, "__exit__").body[-1]) == "return exc_type is NotReadyError or exc_type is DeferredCycle", "TryCompute.__exit__: what it swallows changed")
     out += "(* deferred.wait: `if len(seen) >= <N1> or polynomial_steps >= <N2> or any(deferred is prev for prev in seen): raise DeferredCycle()` *)\n"
     out += f"Definition wait_seen_bound : nat := {wait_bound}%nat.\nDefinition wait_poly_bound : nat := {poly_bound}%nat.\n\n"
